@@ -31,6 +31,10 @@ def configs(tier):
                     c2x2 = CUTS[(ci + pi + k + mult) % len(CUTS)]
                     if c2x2 != -1:
                         c2x2 = c2x2 * mult * mult + (0 if (c2x2 * mult * mult) % 2 else 1)
+                        if k == 0:
+                            # the unrotated, unscaled frame is exact in floating point: integer cutoffs 1..4 put lattice
+                            # neighbours EXACTLY at the cutoff ("within the requested cutoff" includes them)
+                            c2x2 = 2 * (1 + (ci + pi) % 4) ** 2
                     out.append({"cellname": name, "mult": mult, "cell": cell, "pbc": list(pbc), "pos": [pts[i] for i in idx],
                                 "c2x2": int(c2x2), "k": k, "none_cutoff": bool(k % 2)})
     return out
@@ -48,8 +52,9 @@ def exhaustive_pairs(tier):
                 for c2x2 in ((5, -1) if tier == "quick" else (1, 5, 13, 61, -1)):
                     if tier == "quick" and len(pts) > 12 and (a * 7 + b) % 4:
                         continue
+                    kk = -1 if (a + b) % 4 else -2  # k = -2: not rotated / scaled, cutoffs that are exact ties (2, 3 instead of sqrt(2.5), sqrt(6.5))
                     out.append({"cellname": name, "mult": 1, "cell": cell, "pbc": list(pbc), "pos": [pts[a], pts[b]],
-                                "c2x2": c2x2, "k": -1 if (a + b) % 4 else -2, "none_cutoff": False})  # k = -2: not rotated / scaled
+                                "c2x2": {5: 8, 13: 18}.get(c2x2, c2x2) if kk == -2 else c2x2, "k": kk, "none_cutoff": False})
     return out
 
 
